@@ -259,10 +259,11 @@ example : (simulate C05LiveEx.mL C05LiveEx.pL St.fresh).status = .success :=
     (by decide +kernel)).1
 
 /-- the run is not trivial: task 0 WORKING with worker 0 (stalled at the project absence step 1 and
-at the worker's absence step 2), then task 1 with both workers; the automatic task runs alongside -/
+at the worker's absence step 2), then task 1 with both workers; the automatic task runs alongside
+(it becomes READY at the project absence step 1, where nothing starts, and is started at step 2) -/
 example : ((runTrace C05LiveEx.mL C05LiveEx.pL St.fresh).map fun s =>
       (s.time, s.live.tstate 0, s.live.tstate 1, s.live.tstate 2, s.live.allocW 1)) =
-    [(1, .working, .none, .none, []), (2, .working, .none, .working, []),
+    [(1, .working, .none, .none, []), (2, .working, .none, .ready, []),
      (3, .working, .none, .working, []), (4, .working, .none, .working, []),
      (5, .finished, .working, .finished, [1, 0])] ∧
     ((runTrace C05LiveEx.mL C05LiveEx.pL St.fresh).map fun s => s.live.rem 0) = [1, 1, 1, 0, 0] := by
